@@ -1,6 +1,7 @@
 """C19 — bailiwick and termination in the recursor: sanitiser before sink, NS-owner/glue/server-filter guards,
 every recursive cycle passes a depth check."""
 import re
+import argnames
 import helpers
 from api import shorten, Site
 
@@ -134,6 +135,11 @@ def run(cx):
 
     # ---------------------------------------------------------------- H helper semantics the guards above rely on (rules/helpers.py)
     helpers.check(cx, 'C19.H', ['Name::zone_of', 'Name::base_name', 'Name::trim_to'])
+
+    # ---------------------------------------------------------------- N1 argument names agree with the parameters they are bound to (engine/argnames.py)
+    argnames.check(cx, 'C19.N1', r'hickory_resolver::recursor', floor=55)
+    argnames.check_fields(cx, 'C19.N1', r'hickory_resolver::recursor', floor=58)
+
 
 
 def short(p):
